@@ -55,6 +55,11 @@ def run(lines, ctx=21):
 def fbits(x):
     return float(x).hex() if isinstance(x, (int, float)) else repr(x)
 
+def unbits(h):
+    """inverse of fbits for floats (None for anything else)"""
+    try: return float.fromhex(h)
+    except Exception: return None
+
 def sweep(ns, names, inputs):
     """bit-exact observations of the named variables"""
     from GTC import reporting, core
